@@ -179,12 +179,22 @@ def path_canon(e, ren=None):
             return last_seg(e["def"])
         if dk.startswith("Ctor") and e.get("adt"):
             return last_seg(e["adt"])
-        if dk in ("Fn", "AssocFn"):
+        if dk == "Fn":
+            return last_seg(e["def"])
+        if dk == "AssocFn":
             return short_def(e["def"])
         return last_seg(e["def"])
     if e.get("res") == "SelfTy":
         return last_seg(e.get("def", "Self"))
     return e.get("text", "?")
+
+
+_LITRX = re.compile(r"^(-?\d+|MAX|true|false|'.*'|b'.*'|\".*\")$")
+
+
+def _ckey(s):
+    """Ordering of commutative operands: literals first, then lexicographic."""
+    return (0 if _LITRX.match(s) else 1, s)
 
 
 def canon(e, ren=None):
@@ -219,7 +229,7 @@ def canon(e, ren=None):
         if op in CMP_FLIP:
             op = CMP_FLIP[op]
             l, r = r, l
-        if op in COMMUT and op not in ("And", "Or") and r < l:
+        if op in COMMUT and op not in ("And", "Or") and _ckey(r) < _ckey(l):
             l, r = r, l
         return "(%s %s %s)" % (l, OPSYM[op], r)
     if k == "Unary":
